@@ -134,6 +134,8 @@ func mixCase(s string) string {
 	return string(b)
 }
 
+var c18Zones = []*time.Location{time.UTC, time.FixedZone("+14", 14*3600), time.FixedZone("-12", -12*3600), time.FixedZone("+0530", 5*3600+1800), time.FixedZone("-0001", -60)}
+
 func checkC18(ctx *core.Ctx, rep *core.Report) {
 	entries, err := readTLDTable()
 	if err != nil || len(entries) == 0 {
@@ -148,8 +150,6 @@ func checkC18(ctx *core.Ctx, rep *core.Report) {
 		}
 		table[e.Key] = e
 	}
-	plus14 := time.FixedZone("+14", 14*3600)
-	minus12 := time.FixedZone("-12", -12*3600)
 	// --- function level ---------------------------------------------------------
 	for i, e := range entries {
 		if !ctx.Mine(uint64(i)) {
@@ -177,10 +177,16 @@ func checkC18(ctx *core.Ctx, rep *core.Report) {
 			}
 		}
 		rep.Inc("validated")
-		instants := []time.Time{d.Add(-time.Second), d, d.Add(time.Second), time.Date(1, 1, 1, 0, 0, 0, 0, time.UTC), time.Date(9999, 12, 31, 23, 59, 59, 0, time.UTC),
-			d.In(plus14), d.Add(-time.Second).In(minus12)}
+		base := []time.Time{d.Add(-time.Second), d, d.Add(time.Second), time.Date(1, 1, 1, 0, 0, 0, 0, time.UTC), time.Date(9999, 12, 31, 23, 59, 59, 0, time.UTC)}
 		if e.Removal != "" {
-			instants = append(instants, r.Add(-time.Second), r, r.Add(time.Second), r.In(minus12), r.Add(time.Second).In(plus14))
+			base = append(base, r.Add(-time.Second), r, r.Add(time.Second))
+		}
+		// every instant in every zone: the answer is a function of the instant, not of the location it is expressed in
+		var instants []time.Time
+		for _, t := range base {
+			for _, z := range c18Zones {
+				instants = append(instants, t.In(z))
+			}
 		}
 		spell := []string{e.Key, strings.ToUpper(e.Key), mixCase(e.Key)}
 		for _, sp := range spell {
@@ -225,8 +231,21 @@ func checkC18(ctx *core.Ctx, rep *core.Report) {
 	c18Lint(ctx, rep, entries, table)
 }
 
-func c18Cert(cn string, sans []string, nb time.Time) []byte {
+// c18Encodings: the same notBefore instant as UTCTime Z and with +hhmm / -hhmm offsets (the parser accepts them
+// and yields a time.Time in a fixed non-UTC zone).
+var c18Encodings = []struct {
+	name string
+	off  int // seconds east of UTC; 0 = Z
+}{{"Z", 0}, {"+1400", 14 * 3600}, {"-1200", -12 * 3600}, {"+0530", 5*3600 + 1800}}
+
+func c18Cert(cn string, sans []string, nb time.Time, enc int) []byte {
 	s := tlsLeafSpec(nb, nb.AddDate(0, 3, 0))
+	if e := c18Encodings[enc]; e.off != 0 {
+		loc := nb.UTC().Add(time.Duration(e.off) * time.Second)
+		if loc.Year() >= 1950 && loc.Year() <= 2049 {
+			s.NotBeforeN = der.Str(23, loc.Format("060102150405")+e.name)
+		}
+	}
 	if cn == "" {
 		s.Subject = certgen.Name(certgen.ATV{OID: certgen.OIDC, Tag: 19, Val: "US"})
 	} else {
@@ -282,44 +301,54 @@ func c18Lint(ctx *core.Ctx, rep *core.Report, entries []tldEntry, table map[stri
 			if t.Year() < 1950 || t.Year() > 2049 {
 				continue
 			}
-			for _, sh := range shapes {
-				b := c18Cert(sh.cn, sh.sans, t)
-				o, err := zl.Parse(seeds.Cert, b)
-				if err != nil {
-					rep.Inc("parser_rejected")
-					continue
-				}
-				rs, p := zl.Lint(o, reg)
-				rep.Inc("states")
-				rep.Inc("transitions")
-				if p != nil || rs == nil || rs.Results[name] == nil {
-					rep.Violate("C18|lint|panic", fmt.Sprint(p), map[string]interface{}{"kind": "cert", "der_hex": hex.EncodeToString(b)})
-					continue
-				}
-				st := rs.Results[name].Status
-				rep.Tab("lint_status", st.String())
-				if st != lint.Pass && st != lint.Error {
-					continue // NE before the lint's effective date / NA: outside this clause
-				}
-				rep.Inc("validated")
-				fails := false
-				if sh.cn != "" && o.Cert.Subject.CommonName != "" {
-					isIP := false
-					if ipb := parseIPv4(sh.cn); ipb != nil {
-						isIP = true
+			for shi, sh := range shapes {
+				for enc := range c18Encodings {
+					if enc > 0 && shi > 2 {
+						continue // offset encodings on the first three shapes
 					}
-					if !isIP && !refValidTLD(table, sh.cn, t) {
-						fails = true
+					b := c18Cert(sh.cn, sh.sans, t, enc)
+					o, err := zl.Parse(seeds.Cert, b)
+					if err != nil {
+						rep.Inc("parser_rejected")
+						continue
 					}
-				}
-				for _, s := range sh.sans {
-					if !refValidTLD(table, s, t) {
-						fails = true
+					if !o.Cert.NotBefore.Equal(t) {
+						rep.InternalError("C18: notBefore %s encoded as %s parsed as %s", t, c18Encodings[enc].name, o.Cert.NotBefore)
+						continue
 					}
-				}
-				if fails != (st == lint.Error) {
-					rep.Violate("C18|lint|"+fmt.Sprint(fails), fmt.Sprintf("%s=%s but reference says a name fails=%v [CN=%q SAN=%v notBefore=%s; %s delegated %s removed %q]", name, st, fails, sh.cn, sh.sans, t.Format(time.RFC3339), e.Key, e.Deleg, e.Removal),
-						map[string]interface{}{"kind": "cert", "der_hex": hex.EncodeToString(b), "cn": sh.cn, "sans": sh.sans, "t": t.Format(time.RFC3339)})
+					rep.Tab("notbefore_zone", o.Cert.NotBefore.Location().String())
+					rs, p := zl.Lint(o, reg)
+					rep.Inc("states")
+					rep.Inc("transitions")
+					if p != nil || rs == nil || rs.Results[name] == nil {
+						rep.Violate("C18|lint|panic", fmt.Sprint(p), map[string]interface{}{"kind": "cert", "der_hex": hex.EncodeToString(b)})
+						continue
+					}
+					st := rs.Results[name].Status
+					rep.Tab("lint_status", st.String())
+					if st != lint.Pass && st != lint.Error {
+						continue // NE before the lint's effective date / NA: outside this clause
+					}
+					rep.Inc("validated")
+					fails := false
+					if sh.cn != "" && o.Cert.Subject.CommonName != "" {
+						isIP := false
+						if ipb := parseIPv4(sh.cn); ipb != nil {
+							isIP = true
+						}
+						if !isIP && !refValidTLD(table, sh.cn, t) {
+							fails = true
+						}
+					}
+					for _, s := range sh.sans {
+						if !refValidTLD(table, s, t) {
+							fails = true
+						}
+					}
+					if fails != (st == lint.Error) {
+						rep.Violate("C18|lint|"+fmt.Sprint(fails), fmt.Sprintf("%s=%s but reference says a name fails=%v [CN=%q SAN=%v notBefore=%s; %s delegated %s removed %q]", name, st, fails, sh.cn, sh.sans, t.Format(time.RFC3339), e.Key, e.Deleg, e.Removal),
+							map[string]interface{}{"kind": "cert", "der_hex": hex.EncodeToString(b), "cn": sh.cn, "sans": sh.sans, "t": t.Format(time.RFC3339)})
+					}
 				}
 			}
 		}
